@@ -131,6 +131,25 @@ fn near_ln10_strategy(max_k: i64) -> BoxedStrategy<ExpArg> {
         .boxed()
 }
 
+/// long digit strings (41..max digits, every shape incl. all nines) with |x| < 10
+fn long_digits_strategy(max_digits: usize) -> BoxedStrategy<ExpArg> {
+    (gen::digspec(max_digits), any::<bool>(), -6i64..=1, 41usize..=160)
+        .prop_map(|(spec, neg, mag, minlen)| {
+            let mut digits = gen::digits_of(&spec);
+            if digits == "0" {
+                digits = "9".into();
+            }
+            // stretch short strings by repetition so that the argument really is long
+            let base = digits.clone();
+            while digits.len() < minlen {
+                digits.push_str(&base);
+            }
+            let nd = digits.len() as i64;
+            ExpArg { d: D::new(if neg { format!("-{}", digits) } else { digits }, nd - mag) }
+        })
+        .boxed()
+}
+
 fn pair_strategy(max_abs: u32, budget: u64) -> BoxedStrategy<ExpPair> {
     (arg_strategy(max_abs, budget), 1i64..=9, 0i64..=110)
         .prop_map(|(a, d, j)| {
@@ -178,6 +197,7 @@ pub fn run(ctx: &Ctx) {
     let max_abs = t.pick(120u32, 1000);
     let budget = t.pick(4_000u64, 40_000);
     ctx.generated("random-arguments", "exp", t.pick(20_000, 200_000), "1..40-digit arguments with magnitudes 1e-60..max, both signs, zeros with a scale; digits*|x| bounded", move || arg_strategy(max_abs, budget), check_exp);
+    ctx.generated("long-digit-strings", "exp", t.pick(3_000, 40_000), "arguments of 41..max digits (all shapes: random, all nines, near powers of two, ...) with |x| < 10", move || long_digits_strategy(t.pick(300, 1200)), check_exp);
     ctx.generated("near-k-ln10", "exp", t.pick(5_000, 50_000), "x = k*ln(10) (ln10 cut to 8..40 digits) +- d*10^-j: e^x next to a power of ten", move || near_ln10_strategy(t.pick(50, 430)), check_exp);
     ctx.generated("order-pairs", "pair", t.pick(5_000, 50_000), "x and x + d*10^-j relative: exp must not decrease by more than two units", move || pair_strategy(max_abs.min(300), budget / 2), check_pair);
 }
